@@ -112,9 +112,10 @@ class EvalNode(ConfigScalar(str)):
         exec_lines = "\n".join(lines[:-1])
         eval_line = lines[-1].strip()
 
+        filename = self._source_file if self._source_file is not None else '<awesomeyaml !eval node>'
         try:
-            exec_code = compile(exec_lines, self._source_file, 'exec')
-            eval_code = compile(eval_line, self._source_file, 'eval')
+            exec_code = compile(exec_lines, filename, 'exec')
+            eval_code = compile(eval_line, filename, 'eval')
             exec_code_patched, _ = EvalNode._patch_access_to_globals(exec_code)
             eval_code_patched, _ = EvalNode._patch_access_to_globals(eval_code)
             exec(exec_code_patched, gbls)
